@@ -19,3 +19,14 @@ def register_all(prop):
                "so who served a user connection is observed, not inferred. non-trivial = the history has a cross-session name collision or a "
                "re-login while the old session still holds proxies; distinct = distinct (tcpMux, op sequence)."),
          assumptions=["loopback transport; scripted client speaks the released protocol", "after a plain disconnect the harness waits until the server's session table no longer lists the run id (hook) before expecting the names to be free"])
+    prop("C04", qshards=8, tshards=16, qlimit=420, tlimit=3000,
+         rule=("sequences: rapid draws the auth method (token / OIDC against an in-harness issuer), a subset of additional scopes, the listener "
+               "(tcp, tls, websocket; kcp and quic in thorough), tcpMux, and 2..12 peer operations: logins with bad keys (wrong token, other "
+               "timestamp, empty, garbage, prefix, upper-cased, token in clear; expired / wrong-key / wrong-issuer / wrong-audience / alg=none JWTs) "
+               "combined with client_spec.always_auth_pass and type, run id = none / a live session's / unknown, repeated up to 20x; valid logins; "
+               "every non-login message type as first message; pings and work connections with valid / invalid / other-subject keys for live, "
+               "unknown and empty run ids; user connections to a bystander's tunnel. Oracle: reference acceptance predicate (key equals the keyed "
+               "digest / valid JWT; nothing sent by the peer exempts it), refused => error response + connection closed, no StartWorkConn on a "
+               "refused work connection, table snapshot after == before, bystander tunnel answers from legitimate sessions only. non-trivial = "
+               ">=1 refused and >=1 accepted operation, or always_auth_pass claimed, or a scope-protected message; distinct = distinct case."),
+         assumptions=["ssh gateway path: not exercised in this check (see DESIGN.md)", "heartbeat-timeout consequence of invalid pings is decided in C14"])
